@@ -330,6 +330,7 @@ void h_el_setcall(void)
 	__CPROVER_assert(unchanged(), "C04.setcall.never-changes-elements-or-values");
 	if (verif_rr_allocs > 0) {
 		__CPROVER_assert(authorised && id_ok, "C04.setcall.refused-for-unknown-path-fetch-only-wrong-type-or-missing-group-before-anything-is-routed");
+		__CPROVER_assert(e != NULL && (what == STATE ? (e->set_groups & verif_p.set_groups) != 0 : (e->call_groups & verif_p.call_groups) != 0), "C08.setcall.routed-only-when-the-caller-shares-a-set-group-resp-call-group");
 		__CPROVER_assert(verif_rr_allocs == 1 && verif_rr_req == &verif_p && verif_rr_owner == e->peer && verif_rr_id == (has_id ? &verif_id : NULL), "C03.route.record-names-caller-owner-and-original-id");
 	}
 	if (verif_sends > 0) {
